@@ -2,7 +2,7 @@
 
 from ..core import PROVED, REFUTED, UNKNOWN, MISSING
 from ..poly import Poly, prove
-from ..rules import transfers, tiling, peq, in_bounds, vstr, fstr, lifetime_linkage, payload_calls
+from ..rules import transfers, tiling, peq, in_bounds, vstr, fstr, lifetime_linkage, payload_calls, ub_hints
 from ..tys import tstr, adt_args, is_ga, strip_wrappers, pointee
 
 EXPLANATION = (
@@ -48,6 +48,7 @@ def provenance_rule(ctx, cfg, key, spec, pre=None, cases=None, rule="C09.M"):
     if dropped:
         problems.append("by-value input(s) _%s are dropped on the normal path although their elements were moved into the result" % sorted(set(dropped)))
     case_list = cases(a, S, N) if cases else [("", [], None)]
+    decided = set()
     for r in a.returns:
         calls = path_calls(a, r)
         if calls is None:
@@ -59,6 +60,10 @@ def provenance_rule(ctx, cfg, key, spec, pre=None, cases=None, rule="C09.M"):
             facts = set(r["facts"]) | set(pre(a, S, N) if pre else []) | set(cfacts)
             for c in calls:
                 facts |= set(c.facts)
+            if prove((">=", Poly.const(-1)), a.poly_facts(facts)):
+                notes.append("path at bb%s infeasible under%s" % (r["site"][0] if "site" in r else "?", cname or " the precondition"))
+                continue  # this return path is not taken in this case (its branch conditions contradict the case): nothing to show
+            decided.add(cname)
             eng = Engine(a, facts)
             if not eng.replay(calls):
                 problems.append("provenance not decided%s: %s" % (cname, eng.fail))
@@ -76,6 +81,9 @@ def provenance_rule(ctx, cfg, key, spec, pre=None, cases=None, rule="C09.M"):
                         i, cname, pv[0], "; ".join("%r bytes of arg%d+%r" % (sz, o[1], f) for sz, o, f in want)))
                 else:
                     notes.append("component %d%s <- %r" % (i, cname, pv[0]))
+    for cname, _f, _s in case_list:
+        if cname not in decided and a.returns:
+            problems.append("no feasible return path%s" % (cname or " under the precondition"))
     st = PROVED if not problems else (UNKNOWN if all(p.startswith("provenance not decided") or "unknown" in p for p in problems) else REFUTED)
     det = "; ".join(sorted(set(problems))) if problems else "every result byte comes from the input byte the specification names: " + " | ".join(sorted(set(notes)))
     ctx.ob(rule, key, st, det[:1400], at=b["at"], cfg=cfg)
@@ -131,10 +139,9 @@ def check_unreachable_hints(ctx, cfg):
         N = selfN(a)
         idx = Poly.atom(("arg", 2))
         pre = frozenset([("poly", ">=", N - idx - 1)])
-        for i, c in enumerate(a.calls_to("core::hint::unreachable_unchecked")):
-            pf = a.poly_facts(c.facts | pre)
-            infeasible = prove((">=", Poly.const(-1)), pf)
-            ctx.ob("C09.U", "%s#unreachable#%d" % (key, i), infeasible, "hint reached under %s; infeasible given idx < N: %s" % (fstr(c.facts), infeasible), at=b["at"], cfg=cfg)
+        for i, (c, bad) in enumerate(ub_hints(a)):
+            infeasible = bad is not None and prove((">=", Poly.const(-1)), a.poly_facts(bad | pre))
+            ctx.ob("C09.U", "%s#unreachable#%d" % (key, i), infeasible, "hint violated under %s; infeasible given idx < N: %s" % (fstr(bad) if bad is not None else "?", infeasible), at=b["at"], cfg=cfg)
         n += 1
     return n
 
@@ -330,10 +337,9 @@ def check_unchecked(ctx, cfg, name):
     idx = Poly.atom(("arg", 2))
     pre = frozenset([("poly", ">=", N - idx - 1)])  # caller's contract: idx < N (established by C09.A)
     # unreachable hints are infeasible under the precondition
-    for i, c in enumerate(a.calls_to("core::hint::unreachable_unchecked")):
-        pf = a.poly_facts(c.facts | pre)
-        infeasible = prove((">=", Poly.const(-1)), pf)
-        ctx.ob("C09.U", "%s#unreachable#%d" % (key, i), infeasible, "hint reached under %s; infeasible given idx < N: %s" % (fstr(c.facts), infeasible), at=b["at"], cfg=cfg)
+    for i, (c, bad) in enumerate(ub_hints(a)):
+        infeasible = bad is not None and prove((">=", Poly.const(-1)), a.poly_facts(bad | pre))
+        ctx.ob("C09.U", "%s#unreachable#%d" % (key, i), infeasible, "hint violated under %s; infeasible given idx < N: %s" % (fstr(bad) if bad is not None else "?", infeasible), at=b["at"], cfg=cfg)
     rs, cps, tcs, sws = tr["read"], tr["copy"], tr["tcopy"], tr["swap"]
     md = a.calls_to("core::mem::ManuallyDrop::<T>::new")
     ok = len(md) == 1 and md[0].args[0] == ARG1 and len(rs) == 1 and len(tcs) == 1
